@@ -3,6 +3,7 @@
 package c11
 
 import (
+	"bytes"
 	"crypto/sha256"
 	"encoding/json"
 	"fmt"
@@ -58,6 +59,19 @@ func checkAddr(c *addrCase) (key, msg, class string) {
 		}
 		if o1.Panicked || o2.Panicked {
 			return "address/refused", fmt.Sprintf("derivation refused a supported descriptor %x: %s / %s", pk[:3], o1, o2), ""
+		}
+		if pk[2] != 0 {
+			// reserved third descriptor byte set: which descriptor the address should carry is ambiguous, but the
+			// digest part is not - it is the tail of SHAKE-256 over the FULL public key as given
+			want := codecref.XMSSAddress(pk[:])
+			if !bytes.Equal(a[3:], want[3:]) {
+				return "address/xmss-digest-not-over-full-pk", fmt.Sprintf("pk with reserved byte %#02x: address tail %x, SHAKE256(full pk)[15:32] = %x", pk[2], a[3:], want[3:]), ""
+			}
+			lw := codecref.LegacyXMSSAddress(pk[:])
+			if !bytes.Equal(l[3:35], lw[3:35]) {
+				return "address/legacy-digest-not-over-full-pk", fmt.Sprintf("pk with reserved byte %#02x: legacy address digest differs from SHA256(full pk)", pk[2]), ""
+			}
+			return "", "", "reserved-byte-set-digest-only"
 		}
 		if want := codecref.XMSSAddress(pk[:]); a != want {
 			return "address/xmss-formula", fmt.Sprintf("GetXMSSAddressFromPK = %x, descriptor || SHAKE256(pk)[15:32] = %x", a, want), ""
@@ -136,6 +150,9 @@ func TestAddressFormulas(t *testing.T) {
 			pk[0] = byte(sigType<<4 | hash)
 			pk[1] = byte(af<<4 | rapid.IntRange(0, 15).Draw(rt, "heightNibble"))
 			pk[2] = 0
+			if rapid.IntRange(0, 7).Draw(rt, "reserved") == 0 {
+				pk[2] = byte(rapid.IntRange(1, 255).Draw(rt, "reservedByte"))
+			}
 			c.PK = pk
 		}
 		key, msg, class := checkAddr(c)
